@@ -37,7 +37,7 @@ def good (c : Cfg) (named : Bool) : Body → Bool
       good c (named && nm.isSome) b && listOK false b && loopOK c (closOf false b) && good c named r
   | .call _ args d _ b r =>
       good c false b && listOK false b && loopOK c (closOf false b) &&
-      decide (∀ x ∈ d, x ∈ args) && decide (∀ x ∈ args, x ∈ d) && decide (∀ x ∈ callDefNames b, x ∈ closOf false b) &&
+      decide (callerName ∉ c.moduleNames) && decide (∀ x ∈ d, x ∈ args) && decide (∀ x ∈ args, x ∈ d) && decide (∀ x ∈ callDefNames b, x ∈ closOf false b) &&
       ((callDefNames b).isEmpty ||
         (d.isEmpty && (declsThrough b).isEmpty && decide (∀ x ∈ closOf false b, x ∈ callDefNames b))) &&
       good c named r
